@@ -3,6 +3,7 @@ package c02
 
 import (
 	"fmt"
+	"image/color"
 	"math"
 	"os"
 	"runtime"
@@ -19,6 +20,23 @@ import (
 )
 
 func TestMain(m *testing.M) { ev.Main(m, "C02", "exploration") }
+
+// decode-side probes: a decode may be the very first 16-bit operation; encoding afterwards must work (and v.v.)
+func init() {
+	for i := range sp.Spaces {
+		a := &sp.Spaces[i]
+		ev.RegisterProbe(a.Name+".decode-first", func() string {
+			c, al := a.FromEncoded(color.RGBA64{R: 65535, G: 0, B: 32768, A: 65535})
+			if c.R != 1 || c.G != 0 || al != 1 || !(c.B > 0.1 && c.B < 0.4) {
+				return fmt.Sprintf("ColorFromEncodedColor(opaque 65535,0,32768) = %v alpha %v", c, al)
+			}
+			if o := a.LineariseColor(color.NRGBA{R: 255, G: 255, B: 255, A: 255}); o.R != 65535 || o.A != 65535 {
+				return fmt.Sprintf("LineariseColor(white) = %v", o)
+			}
+			return ""
+		})
+	}
+}
 
 // order probes (see ev.ProbeOrders): every encoder at a few inputs incl. the clip points, in generated orders,
 // each order in a fresh process and under a seeded GOMAXPROCS (the tables are built lazily on first use)
